@@ -8,6 +8,12 @@
 (* the input section named by (array, priority):                           *)
 (*     .preinit_array | .init_array[.N] | .fini_array[.N] | .ctors[.N] |   *)
 (*     .dtors[.N]                                                          *)
+(* whose sh_type is t: "array" (SHT_INIT_ARRAY / SHT_FINI_ARRAY /          *)
+(* SHT_PREINIT_ARRAY, whichever matches the output array) or "progbits".   *)
+(* Current toolchains type .init_array* etc. "array" and .ctors*, .dtors*  *)
+(* "progbits", but ELF does not tie the type to the name (GCC < 4.7 and    *)
+(* several assemblers emit .init_array as PROGBITS).  GNU ld places and    *)
+(* reverses by NAME only: neither Order nor the reversal depends on t.     *)
 (* Entries of one object that name the same section are ONE input section  *)
 (* (contents in entry order); the sections of an object are ordered by     *)
 (* first appearance (that is what the assembler / compiler produces).      *)
@@ -49,7 +55,11 @@
 (***************************************************************************)
 EXTENDS Integers, Sequences, FiniteSets, SequencesExt, TLC
 
-CONSTANTS Scenarios        \* the set of scenarios explored (MCInitOrder defines bounded ones)
+CONSTANTS Scenarios,       \* the set of scenarios explored (MCInitOrder defines bounded ones)
+          ReverseByType    \* FALSE: the transcription of wild reverses the contents of an input section
+                           \* iff its NAME starts with .ctors/.dtors (should_reverse_contents, as pinned).
+                           \* TRUE: deliberately broken variant that reverses iff the input section's
+                           \* TYPE is SHT_PROGBITS - TLC must reject it (mc/InitOrder_bytype.cfg)
 
 VARIABLES scn,             \* the scenario, fixed in Init
           cls,             \* the deviation classes the scenario is in (set by Load)
@@ -83,7 +93,10 @@ Devs == {"maxmerge",   \* explicit priority 65535 (.init_array.65535, .ctors.0, 
          "arorder"}    \* archive members are ordered as in the archive; GNU ld orders them in the
                        \* order in which they are extracted
 
+SecTypes == {"array", "progbits"}
+NativeType(a) == IF Legacy(a) THEN "progbits" ELSE "array"
 KindOK(k) == /\ k.a \in InArrays
+             /\ k.t \in SecTypes
              /\ k.p \in Int /\ (k.p = NoPrio \/ (k.p >= 0 /\ k.p <= MaxU16))
              /\ (k.a = "preinit" => k.p = NoPrio)
 
@@ -91,6 +104,10 @@ ScenarioOK(S) ==
     /\ Len(S) >= 1
     /\ \A o \in 1..Len(S) :
           /\ \A e \in 1..Len(S[o].entries) : KindOK(S[o].entries[e])
+          \* one section name in one object = one input section, which has one type
+          /\ \A e, f \in 1..Len(S[o].entries) :
+                S[o].entries[e].a = S[o].entries[f].a /\ S[o].entries[e].p = S[o].entries[f].p
+                    => S[o].entries[e].t = S[o].entries[f].t
           /\ S[o].member \in BOOLEAN
           /\ IF S[o].member
              THEN S[o].pulledby \in ({-1, 0} \cup {k \in 1..Len(S) : S[k].member}) \ {o}
@@ -108,7 +125,9 @@ Contents(S, sec) ==
     LET es == S[sec[1]].entries
         idx == SelectSeq([e \in 1..Len(es) |-> e], LAMBDA e : es[e] = es[sec[2]])
     IN  [k \in 1..Len(idx) |-> <<sec[1], idx[k]>>]
-(* what lands in .init_array/.fini_array: .ctors*/.dtors* contents are reversed *)
+(* GNU ld, what lands in .init_array/.fini_array: the contents of an input section whose NAME is
+   .ctors* / .dtors* are reversed (SEC_ELF_REVERSE_COPY, set from the names in lang_add_section); the
+   section type plays no role *)
 Placed(S, sec) == IF Legacy(KindOf(S, sec).a) THEN Reverse(Contents(S, sec)) ELSE Contents(S, sec)
 
 SecsOfObj(S, o) == LET ss == SectionsOf(S, o) IN [i \in 1..Len(ss) |-> <<o, ss[i]>>]
@@ -266,6 +285,13 @@ InitWith(S) ==
     /\ ord = <<>>
     /\ emitted = <<>>
 
+(* elf_writer.rs should_reverse_contents: only for input sections that go to INIT_ARRAY/FINI_ARRAY
+   (never .preinit_array), decided by the section NAME (starts_with .ctors / .dtors) *)
+WildReverses(k) ==
+    /\ OutOf(k.a) \in {"init", "fini"}
+    /\ IF ReverseByType THEN k.t = "progbits" ELSE Legacy(k.a)
+WildPlaced(S, sec) == IF WildReverses(KindOf(S, sec)) THEN Reverse(Contents(S, sec)) ELSE Contents(S, sec)
+
 Init == \E S \in Scenarios : InitWith(S)
 
 (* file order; also fixes the variants computed for this scenario *)
@@ -307,10 +333,10 @@ Emit ==
     /\ pc = "emit"
     /\ LET out(v, A) ==
                IF A = "preinit"
-               THEN FlattenSeq([i \in 1..Len(prim[v]) |-> Placed(scn, prim[v][i])])
+               THEN FlattenSeq([i \in 1..Len(prim[v]) |-> WildPlaced(scn, prim[v][i])])
                ELSE FlattenSeq([n \in 1..Len(ord[v][A]) |->
                         LET its == ItemsInOrder(scn, v, secs[v][ord[v][A][n]].items)
-                        IN  FlattenSeq([i \in 1..Len(its) |-> Placed(scn, its[i])])])
+                        IN  FlattenSeq([i \in 1..Len(its) |-> WildPlaced(scn, its[i])])])
        IN  emitted' = [v \in vs |-> [A \in OutSet |-> out(v, A)]]
     /\ pc' = "done"
     /\ UNCHANGED <<scn, cls, vs, files, nres, prim, secs, ord>>
